@@ -697,7 +697,7 @@ def _alias_src_sets(tier):
     """Phase subsets in which some label is absent while its other-case label is present."""
     if tier == 'thorough':
         return [ph for ph in _subsets(1) if _alias_labels(ph)]
-    return ['lg', 'sg', 'sl', 'gL', 'gS', 'slg', 'sL', 'lS', 'lgS', 'SL', 'slL', 'slgS']
+    return ['lg', 'sl', 'gL', 'gS', 'slg', 'lS', 'slgS']
 
 
 def _alias_phase_changes(ph, a):
@@ -750,3 +750,47 @@ def alias_view_configs(tier):
                   'thermosteam.indexer:MaterialIndexer.to_material_indexer', 'thermosteam._phase:LockedPhase'])
 def alias_views(w, cfg):
     _run(w, cfg, 'total')
+
+
+# --------------------------------------------------------------------------- C12/views_after_growth
+
+def growth_configs(tier):
+    """Phase views are taken (through exact and interchangeable labels), possibly a phase is removed, then the phase
+    set grows *in place* (the stream takes over another multi-phase stream with more phases), and the views are
+    used again from both sides."""
+    out = []
+    cases = [('lg', 'lgL'), ('lg', 'slg'), ('lg', 'sl'), ('slg', 'slgS'), ('gL', 'lgL'), ('sl', 'lS')]
+    if tier == 'thorough':
+        cases = [(ph, oph) for ph in _subsets(2) for oph in _subsets(2)
+                 if len(ph) <= 3 and len(oph) <= 3 and not set(oph) <= set(ph)]
+    for ph, oph in cases:
+        new = [p for p in oph if p not in ph]
+        srcs = [_src('M', ph, ph, ph[-1]), _src('M', ph, ph[0], ph[-1])]
+        if tier == 'thorough': srcs.append(_src('M', ph, '', ph[0]))
+        for src in srcs:
+            for q in new:
+                g = ('copy_from', oph)
+                if _swap(q) in ph:
+                    # q is an interchangeable label before the growth and an exact one afterwards
+                    out.append(_cfg(src, [('vread', q), g, ('vwrite', q), ('pwrite', q), ('vread', _swap(q))]))
+                    out.append(_cfg(src, [('vwrite', q), g, ('vread', q), ('pwrite', _swap(q))]))
+                # a view of a phase that is added, removed while empty, and comes back by growth in place
+                out.append(_cfg(src, [('add', q), ('vread', q), ('drop', q), g, ('vwrite', q), ('pwrite', q)]))
+                out.append(_cfg(src, [('add', q), ('vread', q), ('reduce',), g, ('vread', q), ('TP',)]))
+            # views through exact labels stay attached when the phase set grows in place
+            out.append(_cfg(src, [('vwrite', ph[0]), ('vread', ph[-1]), ('copy_from', oph), ('pwrite', ph[0]),
+                                  ('vwrite', ph[-1]), ('TP',)]))
+    seen = set(); res = []
+    for c in out:
+        if c['name'] not in seen:
+            seen.add(c['name']); res.append(c)
+    return res
+
+
+@group('C12/views_after_growth', configs=growth_configs,
+       functions=['thermosteam._multi_stream:MultiStream.__getitem__', 'thermosteam._multi_stream:MultiStream.copy_like',
+                  'thermosteam.indexer:MaterialIndexer.copy_like', 'thermosteam.indexer:MaterialIndexer._expand_phases',
+                  'thermosteam.indexer:MaterialIndexer.get_phase', 'thermosteam._multi_stream:MultiStream.phases',
+                  'thermosteam._multi_stream:MultiStream.reduce_phases', 'thermosteam._phase:PhaseIndexer'])
+def views_after_growth(w, cfg):
+    _run(w, cfg, 'T')
